@@ -43,8 +43,8 @@ CLAIMED = {
             'connect before they write, catch transport errors and silence (closing the connection) and let nothing else escape; what the serial framers hand to the client passed the unit filter (a frame for another unit is not delivered); real processIncomingPacket of each framer, from any state on any bytes, lets '
             'only ModbusIOException escape; ClientDecoder.decode lets nothing escape; given those, execute never raises, returns a message or an error object, leaves '
             'client.state == TRANSACTION_COMPLETE and no reply slot. Seven known findings (retry_on_empty alone never retries, retries=0 becomes 1, and per framing the '
-            'exception classes that do escape on garbage, reply slot left behind). Retry options honoured and recovery after fault scripts: bounded units (see note).',
-            'Blocking inside recv/sleep is the transport timeout (external). retry.* lemmas are bounded in the retry count (1..2, loop unrolled) and recover.* are an executable '
+            'exception classes that do escape on garbage, reply slot left behind). Retry options honoured, for every retries value: retrystep.<kind> cuts the retry loop at the exact invariant "attempts + retries left == retries + 1" and discharges that it goes round only after a non-valid reply, is left only on a reply that is not (empty, retry_on_empty) / (foreign, retry_on_invalid), and hands the reply it was left on to the framer. Recovery after fault scripts: bounded units (see note).',
+            'Blocking inside recv/sleep is the transport timeout (external). the composition of the retrystep clauses by induction over the attempts is a hand argument; retry.* lemmas (retry count 1..2, loop unrolled) remain as bounded cross-checks and recover.* are an executable '
             'bounded stand-in (fault scripts of up to 3 exchanges on the real client objects, real framers): neither is counted as proved. Transport and decoder abstracted as in C08. '
             'A1-A10; z3/cvc5.', 'contract-based deductive verification (pyvc VC generation from /repo AST + z3/cvc5)', 'DESIGN.md section 4 C13'),
     'C14': ('proof', 'Linear-arithmetic identities proved for all quantities: get_response_pdu_size() of FC 1-6, 15, 16, 23 and every FC 8 sub-function equals '
